@@ -5,6 +5,9 @@ From Kardia Require Import C08.Model C08.ProofsEqv C08.ProofsUndo.
 Import ListNotations.
 Local Open Scope N_scope.
 
+(* conversion order only: unfold the big state transformers last *)
+Strategy 1000 [finalise intermediate_root commit copy rewind revert_to].
+
 (** ---------------------------------------------------------------- invariants *)
 
 (** revision ids strictly ascending, all in [lo, hi) *)
@@ -94,28 +97,25 @@ Proof.
   apply X. apply undo_wfK. destruct H; split; ss; auto.
 Qed.
 
+(* NB: these three are proved on a destructed state by evaluation only; comparing two
+   different big state expressions by conversion is what makes the kernel slow. *)
+Ltac fields_by_eval s :=
+  destruct s as [x0 x1 x2 x3 x4 x5 x6 x7 x8 x9 x10 x11 x12 x13 j x15 x16 x17 x18]; destruct j;
+  (split; [reflexivity | split; [reflexivity | intros [H1 H2]; split; [exact H1 | exact H2]]]).
+
 Lemma finalise_fields : forall de s,
   st_revs (finalise de s) = nil /\ st_nextrev (finalise de s) = st_nextrev s /\ (wfK s -> wfK (finalise de s)).
-Proof.
-  intros de s; unfold finalise, clear_journal_and_refund, wfK.
-  destruct (st_journal (set_dirtyset _ _)); ss; auto.
-Qed.
+Proof. intros de s. fields_by_eval s. Qed.
 
 Lemma intermediate_root_fields : forall de s,
   st_revs (intermediate_root de s) = nil /\ st_nextrev (intermediate_root de s) = st_nextrev s /\
   (wfK s -> wfK (intermediate_root de s)).
-Proof.
-  intros de s; unfold intermediate_root. destruct (finalise_fields de s) as (A & B & C).
-  unfold wfK in *; ss; auto.
-Qed.
+Proof. intros de s. fields_by_eval s. Qed.
 
 Lemma commit_fields : forall de s,
   st_revs (fst (commit de s)) = nil /\ st_nextrev (fst (commit de s)) = st_nextrev s /\
   (wfK s -> wfK (fst (commit de s))).
-Proof.
-  intros de s; unfold commit. destruct (intermediate_root_fields de s) as (A & B & C).
-  unfold wfK in *; ss; auto.
-Qed.
+Proof. intros de s. fields_by_eval s. Qed.
 
 (** what RevertToSnapshot does, given what its search returns *)
 Lemma revert_to_spec : forall s revid,
@@ -134,23 +134,50 @@ Proof.
   destruct (rewind_journal (length (st_journal s) - jidx) s) as (_ & R & _). rewrite R. reflexivity.
 Qed.
 
+Lemma snapshot_wf : forall s, wf s -> wf (fst (snapshot s)).
+Proof.
+  intros s [[Hn Hl] Ha]. unfold snapshot; ss. split; [split; ss; auto|]. ss. apply asc_snoc; auto.
+Qed.
+
+Lemma revert_wf : forall s id, wf s -> wf (fst (revert_to s id)).
+Proof.
+  intros s id [Hk Ha].
+  pose proof (revert_to_spec s id) as H. cbn zeta in H.
+  destruct (nth_error (st_revs s) (search_rev (st_revs s) id 0)) as [[i j]|];
+    [destruct (N.eqb i id)|]; rewrite H; try (split; auto; fail).
+  destruct (rewind_journal (length (st_journal s) - j) s) as (_ & R & N).
+  pose proof (rewind_wfK (length (st_journal s) - j) s Hk) as [K1 K2].
+  cbn [fst]. split; [split; [exact K1 | exact K2]|].
+  change (asc 0 (firstn (search_rev (st_revs s) id 0) (st_revs s)) (st_nextrev (rewind (length (st_journal s) - j) s))).
+  rewrite N. apply asc_firstn; auto.
+Qed.
+
+Lemma finalise_wf : forall de s, wf s -> wf (finalise de s).
+Proof.
+  intros de s [Hk Ha]. destruct (finalise_fields de s) as (A & B & C). split; auto. rewrite A, B. cbn [asc]. lia.
+Qed.
+
+Lemma intermediate_root_wf : forall de s, wf s -> wf (intermediate_root de s).
+Proof.
+  intros de s [Hk Ha]. destruct (intermediate_root_fields de s) as (A & B & C). split; auto. rewrite A, B. cbn [asc]. lia.
+Qed.
+
+Lemma commit_wf : forall de s, wf s -> wf (fst (commit de s)).
+Proof.
+  intros de s [Hk Ha]. destruct (commit_fields de s) as (A & B & C). split; auto. rewrite A, B. cbn [asc]. lia.
+Qed.
+
 Lemma step_wf : forall s o, wf s -> wf (fst (step s o)).
 Proof.
-  intros s o [Hk Ha].
+  intros s o Hw.
   destruct (plain o) eqn:Hp.
-  - destruct (step_ext s o Hk Hp) as (R & N & W & _). split; auto. rewrite R, N; auto.
-  - destruct o; try discriminate; unfold step.
-    + (* snapshot *) unfold snapshot; ss. split; [destruct Hk; split; ss; auto|]. ss. apply asc_snoc; auto.
-    + (* revert *)
-      pose proof (revert_to_spec s id) as H. cbn zeta in H.
-      destruct (nth_error (st_revs s) (search_rev (st_revs s) id 0)) as [[i j]|];
-        [destruct (N.eqb i id)|]; rewrite H; ss; try (split; auto; fail).
-      destruct (rewind_journal (length (st_journal s) - j) s) as (_ & R & N).
-      split; [pose proof (rewind_wfK (length (st_journal s) - j) s Hk) as [? ?]; split; ss; auto|].
-      ss. rewrite N. apply asc_firstn; auto.
-    + destruct (finalise_fields de s) as (A & B & C). ss. split; auto. rewrite A, B. cbn. lia.
-    + destruct (intermediate_root_fields de s) as (A & B & C). ss. split; auto. rewrite A, B. cbn. lia.
-    + destruct (commit_fields de s) as (A & B & C). ss. split; auto. rewrite A, B. cbn. lia.
+  - destruct Hw as [Hk Ha]. destruct (step_ext s o Hk Hp) as (R & N & W & _). split; auto. rewrite R, N; auto.
+  - destruct o; try discriminate.
+    + exact (snapshot_wf s Hw).
+    + pose proof (revert_wf s id Hw) as X. unfold step. destruct (revert_to s id); exact X.
+    + exact (finalise_wf de s Hw).
+    + exact (intermediate_root_wf de s Hw).
+    + exact (commit_wf de s Hw).
 Qed.
 
 Lemma run_wf : forall ops s, wf s -> wf (run ops s).
